@@ -59,7 +59,7 @@ PROPS = {
     },
     'C11': {
         'level': 'exploration',
-        'strata': [('copies-and-siblings', 'copies', 1.0)],
+        'strata': [('copies-and-siblings', 'copies', 0.85), ('linker-checkpoints', 'linker', 0.15)],
         'quick': 12000,
         'thorough': 250000,
     },
